@@ -277,6 +277,13 @@ func (r *rangeRun) request(cl rangeClient, mt byte) []byte {
 		h, _ := hex.DecodeString(cl.Host)
 		opts = append(opts, pkt.O4(12, h...))
 	}
+	if r.xid%7 == 3 {
+		// a client that asks for a lease time of its own (option 51 in a request): shorter, equal, longer than
+		// the configured one, zero, infinity - what is announced stays what is configured
+		cfg := uint32(r.lease / time.Second)
+		v := []uint32{cfg - 1, cfg / 2, cfg/2 + cfg/4, 60, 0, 0xffffffff, cfg, cfg + 1, 2700, 1800}[r.rng.Intn(10)]
+		opts = append(opts, pkt.O4(51, byte(v>>24), byte(v>>16), byte(v>>8), byte(v)))
+	}
 	if r.xid%6 == 4 {
 		// a client that (also, or instead) tells its name in a Client FQDN option
 		opts = append(opts, fqdn81(r.rng))
